@@ -80,6 +80,8 @@ class World (object):
       o.append(("fmodm", k)); o.append(("fmods", k))
       # an action list the switch refuses half way (output, then a vendor action): the id is used up all the same
       o.append(("poutv", k))
+      # dropping a buffered packet: packet-out naming it with an empty action list
+      o.append(("poutd", k))
     for v in (0, 64, 128, 0xffff):
       if v != self.miss_len: o.append(("cfg", v))
     # a frame that comes in a packet-out, is rewritten by the action list and resubmitted to the (missing) table
@@ -173,6 +175,14 @@ class World (object):
       return ("poutt", p["buffer_id"] != W.NO_BUFFER, len(p["data"]))
     # buffer use
     k = op[1]
+    if kind == "poutd":
+      st.feed(W.packet_out(self.nxid(), b"", b"", buffer_id=k, in_port=W.OFPP_NONE))
+      emitted = st.take_out()
+      msgs, rest = W.split(st.drain())
+      if emitted or msgs:
+        self.fail("use:drop-not-silent", "packet-out (buffer %d, no actions) emitted %d frames / %d messages" % (k, len(emitted), len(msgs)))
+      self.out.pop(k); self.last_used = k
+      return ("use-drop",)
     if kind == "poutv":
       f, inp = self.out[k]
       st.feed(W.packet_out(self.nxid(), W.a_output(TARGET) + W.a_vendor(0x2320, b"\0\0\0\0"), b"", buffer_id=k, in_port=W.OFPP_NONE))
